@@ -366,6 +366,7 @@ M('F49R', 'src/xdoctest/doctest_example.py', """                        if self.
                         self._skipped_parts = list(self._parts)""", """                        if True:
                             raise
                         self._skipped_parts = list(self._parts)""", ['C15'], 'F49 repair reverted: Skipped raised by the import of the module aborts the native runner')
+M('F50R', 'src/xdoctest/doctest_example.py', """                test_globals['__annotations__'] = dict(test_globals['__annotations__'])""", """                pass""", ['C11'], 'F50 repair reverted: annotated assignments of a doctest land in the module')
 M('F17R', 'src/xdoctest/doctest_example.py', """                part_directive = None
                 try:
                     try:
